@@ -15,6 +15,11 @@ CHECKS['C07'] = dict(
     note='Trusted: rustc MIR dump, vf.engine, contract models of bytes/std/crypto APIs, z3. Chunk loops closed by induction from an arbitrary loop-head state; SOCKS5 method list bounded to 8. Transport stacks, allocation failure and the async shells are outside.',
     technique='MIR symbolic execution to z3 (panic-freedom obligations over symbolic-length buffers, havoc crypto contracts)', design='DESIGN.md section 2, C07')
 
+CHECKS['C14'] = dict(
+    text='Round trip of the real address encoders and decoders (SOCKS5-style and VMess-style) on a symbolic address - IPv4, IPv6, or a domain name of symbolic length and content - followed by an arbitrary tail: decoded address equals the original, exactly the encoded bytes are consumed, length()/try_decode_at agree with what was written, and a refusal writes nothing. Proved for names of every length (not sampled): the one-byte length field boundary is a value of the symbolic length.',
+    note='Trusted: rustc MIR dump, vf.engine, bytes/std::net contract models, z3. String::from_utf8 is a may-fail contract.',
+    technique='MIR symbolic execution to z3 (encode/decode round trip over symbolic-length byte arrays)', design='DESIGN.md section 2, C14')
+
 NOT_APPLICABLE = {
  'C08': 'property is about long-lived async accept/select! loops under injected socket/TLS/DNS faults; no synchronous core that symbolic execution of MIR or Kani can reach (tokio runtime, epoll, FFI)',
  'C09': 'quantifies over thread interleavings of shared state; Kani has no thread model and Engine M is sequential',
